@@ -50,6 +50,7 @@ func main() {
 		fmt.Println("typecheck:", err)
 		return
 	}
+	defer emitSkeleton(pkgName, fset, files, info) // last: it renames identifiers in the ASTs
 	var facts []fact
 	for _, f := range files {
 		for _, d := range f.Decls {
